@@ -29,6 +29,11 @@ def settle(prop, failures, max_report=8, confirm=None):
     unlisted key (first witness, in enumeration order).  Returns (n_violation_keys, known_hits).
     The known-findings file is only ever read here."""
     known = load_known(prop)
+    d = os.path.join(VERIF, "replays", prop)
+    if os.path.isdir(d):
+        for fn in os.listdir(d):  # replay files belong to the latest run only
+            if fn.endswith(".json"):
+                os.unlink(os.path.join(d, fn))
     by_key = {}
     for f in failures:
         by_key.setdefault(f["key"], []).append(f)
